@@ -135,6 +135,7 @@ type End struct {
 	failReadAfter int // -1 = never
 	rfail         chan struct{}
 	rfailOnce     sync.Once
+	failedReads   atomic.Int64 // Read calls answered with the failure
 	writes        int
 	failWriteAt   int // -1 = never; index (0-based) of the write that fails
 	failWriteOnce bool
@@ -264,6 +265,10 @@ func (e *End) SetOnRead(f func(n int)) {
 	e.mu.Unlock()
 }
 
+// FailedReads counts the Read calls that were answered with the end's failure. A reader that
+// gives up at the first failure sees exactly one.
+func (e *End) FailedReads() int64 { return e.failedReads.Load() }
+
 func (e *End) ReadFailed() bool {
 	select {
 	case <-e.rfail:
@@ -296,6 +301,7 @@ func (e *End) Read(ctx context.Context) (*Rpc, error) {
 	}
 	select {
 	case <-e.rfail:
+		e.failedReads.Add(1)
 		return nil, e.rerr()
 	case <-e.l.killed:
 		return nil, ErrKill
@@ -306,6 +312,7 @@ func (e *End) Read(ctx context.Context) (*Rpc, error) {
 	case <-ctx.Done():
 		return nil, ctx.Err()
 	case <-e.rfail:
+		e.failedReads.Add(1)
 		return nil, e.rerr()
 	case <-e.l.killed:
 		return nil, ErrKill
